@@ -130,7 +130,7 @@ class DocText:
     """Query text of a node table.  spans[id] = (start_line, start_col, end_line, end_col)
     1-based, end exclusive, of each node's own text (field incl. sub-selection)."""
 
-    def __init__(self, nodes, layout=0):
+    def __init__(self, nodes, layout=0, reverse_defs=False):
         self.nodes = nodes
         self.layout = layout
         self.spans = {}
@@ -141,7 +141,10 @@ class DocText:
         self.children = {}
         for i, n in enumerate(nodes, 1):
             self.children.setdefault(n["parent"], []).append(i)
-        for i in self.children.get(0, []):
+        defs = self.children.get(0, [])
+        if reverse_defs:
+            defs = list(reversed(defs))
+        for i in defs:
             self._def(i)
             self._nl()
         self.text = "".join(self._buf)
